@@ -17,7 +17,10 @@ CASE_TIMEOUT = 300
 TOL = 1e-9
 RULE = ("seeded random time-dependent systems / mean-field models / control "
         "and correlation requests given by float times, shifted by tau in "
-        "{+-0.37 dt k, 10.123, -3.3, ...}; methods Tempo, PT-TEMPO + "
+        "{+-0.37 dt k, 10.123, -3.3, 99.9, -250.3, +-U(20,300), ...}, end "
+        "times on the grid point (start+N*dt) or inside step N, pairs of "
+        "nearly coincident float control times registered in reverse order; "
+        "methods Tempo, PT-TEMPO + "
         "compute_dynamics, MeanFieldTempo, compute_dynamics_with_field, "
         "compute_correlations. Non-trivial iff the explicit time dependence "
         "changes the result by >=1e-2 (run with frozen time dependence "
@@ -29,7 +32,9 @@ ASSUMPTIONS = ["float control / correlation times are kept >= 1e-3 dt away "
 def required_cells(tier):
     return {"method:tempo": 3, "method:pt": 3, "method:meanfield": 2,
             "method:meanfield_pt": 2, "method:corr": 3, "tau:nonmultiple": 5,
-            "tau:negative": 3, "float-controls": 2, "arg_times_compared": 200}
+            "tau:negative": 3, "float-controls": 2, "arg_times_compared": 200,
+            "tau:far": 6, "end:on-grid": 10,
+            "float-controls:near-coincident": 4}
 
 
 def cases(tier, seed):
@@ -55,8 +60,12 @@ def run_case(case):
     nsteps = int(rng.integers(3, 7))
     start = [0.0, -0.3, 1.7, 0.25][i % 4]
     taus = [0.37 * dt * (1 + i % 3), -0.37 * dt * 2, 10.123, -3.3,
-            float(rng.uniform(-2, 2)), 5 * dt]
+            float(rng.uniform(-2, 2)), 5 * dt, 99.9, -250.3,
+            float(rng.uniform(20, 300)) * (1 if i % 2 else -1)]
     tau = float(taus[(i // 5) % len(taus)])
+    # the end of the interval as the grid point itself (start + N*dt in
+    # floats, as a user writes it) or safely inside step N
+    on_grid = bool((i // 5) % 2 == 0)
     subdiv = None if i % 2 else 256
     epsrel = 1e-8
     d = 2 if i % 3 else 3
@@ -66,6 +75,10 @@ def run_case(case):
         cells.append("tau:nonmultiple")
     if tau < 0:
         cells.append("tau:negative")
+    if abs(tau) >= 20:
+        cells.append("tau:far")
+    if on_grid:
+        cells.append("end:on-grid")
     seeds = int(rng.integers(0, 2**31))
     # exact (ancilla) computations: 1e-9; truncated tensor-network methods:
     # two runs whose inputs differ by rounding may truncate differently, so
@@ -151,14 +164,14 @@ def run_case(case):
         pa.counts.clear(), pb.counts.clear()
         if method == "tempo":
             da = lib.run_tempo(sa["oq"], oper, corr, rho0, start, dt, nsteps,
-                               params, False)
+                               params, False, on_grid)
             db = lib.run_tempo(sb["oq"], oper, corr, rho0, start + tau, dt,
-                               nsteps, params, False)
+                               nsteps, params, False, on_grid)
         else:
             da = lib.run_pt(sa["oq"], oper, corr, rho0, start, dt, nsteps,
-                            params, False, subdiv)
+                            params, False, subdiv, on_grid=on_grid)
             db = lib.run_pt(sb["oq"], oper, corr, rho0, start + tau, dt,
-                            nsteps, params, False, subdiv)
+                            nsteps, params, False, subdiv, on_grid=on_grid)
         compare_states(da.states, db.states, method)
         compare_times(da.times, db.times, method)
         compare_args(pa, pb, method)
@@ -196,10 +209,12 @@ def run_case(case):
         if method == "meanfield":
             da = oqupy.MeanFieldTempo(ma, baths, params, rhos, a0,
                                       start).compute(
-                lib.end_time(start, dt, nsteps), progress_type="silent")
+                lib.end_time(start, dt, nsteps, on_grid),
+                progress_type="silent")
             db = oqupy.MeanFieldTempo(mb, baths, params, rhos, a0,
                                       start + tau).compute(
-                lib.end_time(start + tau, dt, nsteps), progress_type="silent")
+                lib.end_time(start + tau, dt, nsteps, on_grid),
+                progress_type="silent")
         else:
             # process tensors are time-translation invariant objects: one set
             pts = [oqupy.pt_tempo_compute(
@@ -209,14 +224,22 @@ def run_case(case):
             ks = int(rng.integers(0, nsteps + 1))
             off3 = float(rng.uniform(-0.35, 0.35))
             sups = [scen.random_superop(rng, dd, "unitary") for dd in dims]
+            sups2 = [scen.random_superop(rng, dd, "unitary") for dd in dims]
             cells.append("float-controls")
+            cells.append("float-controls:near-coincident")
 
             def ctrls(s):
                 out = []
-                for dd, sup in zip(dims, sups):
+                for dd, sup, sup2 in zip(dims, sups, sups2):
                     c = oqupy.Control(dd)
+                    is_post = bool(i % 4 == 1 and ks < nsteps)
+                    # two distinct, nearly coincident control times of the
+                    # same step; the later one is registered first (controls
+                    # act in the order of their times)
+                    c.add_single(float(s + (ks + off3 + 2e-4) * dt), sup2,
+                                 post=is_post)
                     c.add_single(float(s + (ks + off3) * dt), sup,
-                                 post=bool(i % 4 == 1 and ks < nsteps))
+                                 post=is_post)
                     out.append(c)
                 return out
             da = oqupy.compute_dynamics_with_field(
@@ -280,9 +303,13 @@ def run_case(case):
         ks = int(rng.integers(0, nsteps + 1))
         off3 = float(rng.uniform(-0.35, 0.35))
         sup = scen.random_superop(rng, d, "unitary")
+        sup2 = scen.random_superop(rng, d, "unitary")
+        cells.append("float-controls:near-coincident")
         outs = []
         for sysd, s in ((sa, start), (sb, start + tau)):
             c = oqupy.Control(d)
+            c.add_single(float(s + (ks + off3 + 2e-4) * dt), sup2,
+                         post=bool(i % 2))
             c.add_single(float(s + (ks + off3) * dt), sup,
                          post=bool(i % 2))
             outs.append(oqupy.compute_dynamics(
